@@ -378,7 +378,8 @@ def commentStep (fs : FS) (t : Path) (fork : InfoFork) : Option Bytes → Err ×
   | none => (.ok, fs)
   | some c => runSeq fs [(.writeFile (wrapper t).info ({ fork with comment := c }).encode, false)]
 
-/-- The rename half of `HandleSetFileInfo`: a folder is renamed with `os.Rename`, a file with
+/-- The rename half of `HandleSetFileInfo`: a folder is renamed with `os.Rename` (errors other than
+    "not found" are ignored by the handler) followed by its `.info_` side file, a file with
     `fileWrapper.Move` under its new (single-component) name. -/
 def renameStep (root : Path) (fs : FS) (pf : Option Bytes) (t : Path) (isDir : Bool) : Option Bytes → FS × Reply
   | none => (fs, .ok)
@@ -386,7 +387,13 @@ def renameStep (root : Path) (fs : FS) (pf : Option Bytes) (t : Path) (isDir : B
     if isDir then
       withTarget root fs pf nn fun t' =>
         let r := runSeq fs [(.rename t t', false)]
-        if r.1 = Err.notExist then (r.2, .err) else (r.2, .ok)
+        if r.1 = Err.notExist then (r.2, .err)
+        else if r.1 = Err.ok then
+          -- after `fix:` 500a006: the folder's information fork (its comment) travels with it;
+          -- a missing side file is ignored, any other error ends the handler without a reply
+          let r2 := runSeq r.2 [(.rename (wrapper t).info (wrapper t').info, true)]
+          if r2.1 = Err.ok then (r2.2, .ok) else (r2.2, .none)
+        else (r.2, .ok)
     else
       withTarget root fs pf [] fun d =>
         let cs := newNameComps nn
@@ -482,6 +489,11 @@ def Req.paths (root : Path) : Req → List Path
      | none => []
      | some nn =>
        okPaths (target root pf nn) ++
+       -- folder rename: the two information-fork side files.  They are only reached after
+       -- `os.Rename(t, t')` succeeded, which it cannot when `t'` is the (existing) root directory.
+       (match target root pf n, target root pf nn with
+        | .ok t, .ok t' => if isRoot root t || isRoot root t' then [] else [(wrapper t).info, (wrapper t').info]
+        | _, _ => []) ++
        (match target root pf n, target root pf [] with
         | .ok t, .ok d => d :: (if isRoot root t then [] else (moveScript t d (newNameComps nn) (baseName (newNameComps nn))).flatMap (·.1.args))
         | _, _ => []))
@@ -500,15 +512,15 @@ def uploadFilePaths (root : Path) (fs : FS) (pf : Option Bytes) (name : Bytes) :
 -- ---------------------------------------------------------------- folder upload (transfer connection)
 
 /-- `folderUpload.FormattedPath` segment loop: `count` items of `0,0,len,name`; an index or slice
-    out of range panics (recovered by `handleFileTransfer`).  `3+segLen` is `byte` arithmetic in Go:
-    a segment of 253..255 bytes wraps to an end index below 3 and panics as well. -/
+    out of range panics (recovered by `handleFileTransfer`).  `3+segLen` is `int` arithmetic (after
+    `fix:` df361ce): a segment of 253..255 bytes is read like any other. -/
 def fuSegments : Nat → Bytes → Res (List Bytes)
   | 0, _ => .ok []
   | n + 1, d =>
     if d.length < 3 then .panic
     else
       let l := ((d.drop 2).headD 0).toNat
-      if 253 ≤ l ∨ d.length < 3 + l then .panic
+      if d.length < 3 + l then .panic
       else match fuSegments n (d.drop (3 + l)) with
         | .ok ss => .ok ((d.drop 3).take l :: ss)
         | r => r
@@ -853,8 +865,28 @@ theorem commentStep_keeps (root : Path) (fs : FS) (t : Path) (fork : InfoFork) (
       simp [FSOp.args, FSOp.paths] at hq; subst hq; exact hinfo)
       (by intro o ho q hq; simp at ho; subst ho; simp [FSX.strictArgs] at hq)
 
+/-- `os.Rename` onto an existing DIRECTORY never succeeds (Go refuses it) and changes nothing. -/
+theorem rename_onto_dir (fs : FS) (a b : Path) (hb : lookup fs b = some .dir) :
+    (runSeq fs [(FSOp.rename a b, false)]).1 ≠ .ok ∧ (runSeq fs [(FSOp.rename a b, false)]).2 = fs := by
+  have h : (FS.rename fs a b).1 ≠ .ok ∧ (FS.rename fs a b).2 = fs := by
+    simp only [FS.rename, hb]
+    cases lookup fs a with
+    | none => exact ⟨by simp only [missingErr]; split <;> simp, rfl⟩
+    | some n => exact ⟨by simp, rfl⟩
+  have e : (FSOp.rename a b).apply fs = FS.rename fs a b := rfl
+  unfold runSeq
+  dsimp only
+  rw [e]
+  split
+  · rename_i hh
+    rcases hh with hh | hh
+    · exact absurd hh h.1
+    · exact absurd hh.1 (by decide)
+  · exact h
+
 theorem renameStep_keeps (root : Path) (hr : RootOK root) (fs : FS) (pf : Option Bytes) (t : Path) (isDir : Bool)
-    (nn : Option Bytes) (hu : root <+: t) (hne : t ≠ root) : Keeps root fs (renameStep root fs pf t isDir nn).1 := by
+    (nn : Option Bytes) (hu : root <+: t) (hne : t ≠ root) (hdir : lookup fs root = some .dir) :
+    Keeps root fs (renameStep root fs pf t isDir nn).1 := by
   cases nn with
   | none => exact Keeps.rfl' root fs
   | some nn =>
@@ -863,12 +895,30 @@ theorem renameStep_keeps (root : Path) (hr : RootOK root) (fs : FS) (pf : Option
     · apply withTarget_keeps
       intro t' ht'
       have hu' := target_under root hr pf nn t' ht'
-      have hk : Keeps root fs (runSeq fs [(FSOp.rename t t', false)]).2 :=
-        runSeq_keeps root _ _ (by
-          intro o ho q hq; simp at ho; subst ho
-          simp [FSOp.args, FSOp.paths] at hq; rcases hq with rfl | rfl <;> assumption)
-          (by intro o ho q hq; simp at ho; subst ho; simp [FSX.strictArgs] at hq; subst hq; exact hne)
-      split <;> exact hk
+      by_cases hroot' : t' = root
+      · -- renaming onto the root itself: refused, the information fork step is never reached
+        subst hroot'
+        obtain ⟨h1, h2⟩ := rename_onto_dir fs t t' hdir
+        rw [if_neg h1, h2]
+        split <;> exact Keeps.rfl' t' fs
+      · have hk : Keeps root fs (runSeq fs [(FSOp.rename t t', false)]).2 :=
+          runSeq_keeps root _ _ (by
+            intro o ho q hq; simp at ho; subst ho
+            simp [FSOp.args, FSOp.paths] at hq; rcases hq with rfl | rfl <;> assumption)
+            (by intro o ho q hq; simp at ho; subst ho; simp [FSX.strictArgs] at hq; subst hq; exact hne)
+        have hi1 := wrapperPaths_under root t hu hne (wrapper t).info (by simp [wrapperPaths])
+        have hi2 := wrapperPaths_under root t' hu' hroot' (wrapper t').info (by simp [wrapperPaths])
+        have hn1 := wrapperPaths_ne_root root t hu hne (wrapper t).info (by simp [wrapperPaths])
+        have hk2 : ∀ g : FS, Keeps root g (runSeq g [(FSOp.rename (wrapper t).info (wrapper t').info, true)]).2 :=
+          fun g => runSeq_keeps root _ g (by
+            intro o ho q hq; simp at ho; subst ho
+            simp [FSOp.args, FSOp.paths] at hq; rcases hq with rfl | rfl <;> assumption)
+            (by intro o ho q hq; simp at ho; subst ho; simp [FSX.strictArgs] at hq; subst hq; exact hn1)
+        split
+        · exact hk
+        · split
+          · split <;> exact Keeps.trans hk (hk2 _)
+          · exact hk
     · apply withTarget_keeps
       intro d hd
       have hdu := target_under root hr pf [] d hd
@@ -877,7 +927,8 @@ theorem renameStep_keeps (root : Path) (hr : RootOK root) (fs : FS) (pf : Option
       split <;> exact hk
 
 theorem setInfo_keeps (root : Path) (hr : RootOK root) (fs : FS) (pf : Option Bytes) (name : Bytes)
-    (comment newName : Option Bytes) : Keeps root fs (setInfo root fs pf name comment newName).1 := by
+    (comment newName : Option Bytes) (hdir : lookup fs root = some .dir) :
+    Keeps root fs (setInfo root fs pf name comment newName).1 := by
   unfold setInfo
   apply withTarget_keeps
   intro t ht
@@ -899,14 +950,14 @@ theorem setInfo_keeps (root : Path) (hr : RootOK root) (fs : FS) (pf : Option By
         dsimp only
         split
         · exact hk1
-        · exact Keeps.trans hk1 (renameStep_keeps root hr _ pf t _ newName hu hne)
+        · exact Keeps.trans hk1 (renameStep_keeps root hr _ pf t _ newName hu hne (hk1.2.2 hdir))
 
 /-- C07, frame for every modelled request: whatever the request's bytes, nothing outside the root changes. -/
-theorem handle_keeps (root : Path) (hr : RootOK root) (ig : Bytes → Bool) (fs : FS) (req : Req) :
-    Keeps root fs (handle root ig fs req).1 := by
+theorem handle_keeps (root : Path) (hr : RootOK root) (ig : Bytes → Bool) (fs : FS) (req : Req)
+    (hdir : lookup fs root = some .dir) : Keeps root fs (handle root ig fs req).1 := by
   cases req with
   | getInfo pf n => simp only [handle, getInfo_fs]; exact Keeps.rfl' root fs
-  | setInfo pf n c nn => exact setInfo_keeps root hr fs pf n c nn
+  | setInfo pf n c nn => exact setInfo_keeps root hr fs pf n c nn hdir
   | delete pf n => exact delete_keeps root hr fs pf n
   | move pf n np => exact move_keeps root hr fs pf n np
   | newFolder pf n => exact newFolder_keeps root hr fs pf n
@@ -989,7 +1040,27 @@ theorem Req.paths_under (root : Path) (hr : RootOK root) (req : Req) : ∀ q ∈
       | some nn =>
         dsimp only at h
         rcases List.mem_append.mp h with h | h
-        · exact okPaths_under root hr pf nn q h
+        · rcases List.mem_append.mp h with h | h
+          · exact okPaths_under root hr pf nn q h
+          · cases ht : target root pf n with
+            | ok t =>
+              cases ht' : target root pf nn with
+              | ok t' =>
+                simp only [ht, ht'] at h
+                by_cases hc : (isRoot root t || isRoot root t') = true
+                · rw [if_pos hc] at h; simp at h
+                · rw [if_neg hc] at h
+                  have hc' : isRoot root t = false ∧ isRoot root t' = false := by simpa using hc
+                  have hu := target_under root hr pf n t ht
+                  have hu' := target_under root hr pf nn t' ht'
+                  simp only [List.mem_cons, List.mem_nil_iff, or_false] at h
+                  rcases h with rfl | rfl
+                  · exact wrapperPaths_under root t hu (isRoot_false hc'.1) _ (by simp [wrapperPaths])
+                  · exact wrapperPaths_under root t' hu' (isRoot_false hc'.2) _ (by simp [wrapperPaths])
+              | err => simp [ht, ht'] at h
+              | panic => simp [ht, ht'] at h
+            | err => simp [ht] at h
+            | panic => simp [ht] at h
         · exact movePart_under root hr pf pf n [] (fun _ => newNameComps nn) (fun _ => baseName (newNameComps nn)) q h
   | newFolder pf n => exact okPaths_under root hr pf n
   | alias pf n np =>
@@ -1256,12 +1327,13 @@ theorem target_shape (root : Path) (hr : RootOK root) (pf : Option Bytes) (name 
 def handleAll (root : Path) (ig : Bytes → Bool) (fs : FS) (reqs : List Req) : FS :=
   reqs.foldl (fun fs r => (handle root ig fs r).1) fs
 
-theorem handleAll_keeps (root : Path) (hr : RootOK root) (ig : Bytes → Bool) (fs : FS) (reqs : List Req) :
-    Keeps root fs (handleAll root ig fs reqs) := by
+theorem handleAll_keeps (root : Path) (hr : RootOK root) (ig : Bytes → Bool) (fs : FS) (reqs : List Req)
+    (hdir : lookup fs root = some .dir) : Keeps root fs (handleAll root ig fs reqs) := by
   induction reqs generalizing fs with
   | nil => exact Keeps.rfl' root fs
   | cons r rs ih =>
-    exact Keeps.trans (handle_keeps root hr ig fs r) (ih (handle root ig fs r).1)
+    have h1 := handle_keeps root hr ig fs r hdir
+    exact Keeps.trans h1 (ih (handle root ig fs r).1 (h1.2.2 hdir))
 
 -- ---------------------------------------------------------------- file list (C11)
 
@@ -2220,5 +2292,68 @@ theorem formattedPath_string_level (segs : List Bytes) :
   | cons a rest =>
     simp only
     rw [rooted_of_cleanStr, splitSlash_intercalate _ (by simp), foldl_step_flatMap]
+
+-- ---------------------------------------------------------------- folder rename (after fix 500a006)
+
+theorem concat_ne {d : Path} {x y : Comp} (h : x ≠ y) : d ++ [x] ≠ d ++ [y] := by
+  intro e; exact h (List.cons.inj (List.append_cancel_left e)).1
+
+theorem concat_not_prefix {d : Path} {x y : Comp} (h : x ≠ y) : ¬ d ++ [x] <+: d ++ [y] := by
+  intro hp
+  exact concat_ne h (List.IsPrefix.eq_of_length hp (by simp))
+
+theorem info_ne_self (n : Comp) : infoPfx ++ n ≠ n := by
+  intro e; have := congrArg List.length e
+  simp only [List.length_append, infoPfx, List.length_cons, List.length_nil] at this; omega
+
+/-- A folder rename carries the folder's information fork (its comment): after `os.Rename(d/n, d/n')`
+    succeeded and the request was acknowledged, the folder node is bound at the new name, its `.info_`
+    side file at `.info_<new name>` exactly as it was at `.info_<old name>` (absent stays absent),
+    nothing is left under the old names, and no other path changes. -/
+theorem folder_rename_carries (root : Path) (fs fs' : FS) (pf : Option Bytes) (d : Path) (n n' : Comp) (nn : Bytes)
+    (ht' : target root pf nn = .ok (d ++ [n']))
+    (hok : renameStep root fs pf (d ++ [n]) true (some nn) = (fs', .ok))
+    (hren : (FS.rename fs (d ++ [n]) (d ++ [n'])).1 = .ok)
+    (hnn : n ≠ n') (h1 : infoPfx ++ n ≠ n') (h2 : infoPfx ++ n' ≠ n)
+    (hfree : lookup fs (d ++ [infoPfx ++ n']) = none) :
+    lookup fs' (d ++ [n']) = lookup fs (d ++ [n]) ∧
+    lookup fs' (d ++ [infoPfx ++ n']) = lookup fs (d ++ [infoPfx ++ n]) ∧
+    lookup fs' (d ++ [n]) = none ∧ lookup fs' (d ++ [infoPfx ++ n]) = none ∧
+    (∀ x, ¬ d ++ [n] <+: x → ¬ d ++ [n'] <+: x → ¬ d ++ [infoPfx ++ n] <+: x → ¬ d ++ [infoPfx ++ n'] <+: x →
+      lookup fs' x = lookup fs x) := by
+  have hi : infoPfx ++ n ≠ infoPfx ++ n' := fun e => hnn (List.append_cancel_left e)
+  generalize hfs1 : (FS.rename fs (d ++ [n]) (d ++ [n'])).2 = fs1 at *
+  have e1 : FS.rename fs (d ++ [n]) (d ++ [n']) = (.ok, fs1) := Prod.ext hren hfs1
+  obtain ⟨s1b, s1a, _, hpa, hpb, F1⟩ := rename_ok_spec fs fs1 _ _ e1 (concat_ne hnn) (concat_not_prefix (Ne.symm hnn))
+  have hddir : lookup fs d = some .dir := (parentErr_concat fs d n').mp hpb
+  have hd1 : lookup fs1 d = some .dir := by
+    rw [F1 d (not_concat_prefix d n) (not_concat_prefix d n')]; exact hddir
+  -- unfold the handler
+  have hr1 : runSeq fs [(FSOp.rename (d ++ [n]) (d ++ [n']), false)] = (.ok, fs1) := by
+    simp only [runSeq, FSOp.apply, e1]; simp
+  simp only [renameStep, if_true, withTarget, ht', hr1] at hok
+  simp only [reduceCtorEq, if_false] at hok
+  rw [wrapper_concat, wrapper_concat] at hok
+  dsimp only at hok
+  split at hok
+  · rename_i hr2
+    injection hok with hok _
+    have hrun : runSeq fs1 [(FSOp.rename (d ++ [infoPfx ++ n]) (d ++ [infoPfx ++ n']), true)] = (.ok, fs') :=
+      Prod.ext hr2 hok
+    obtain ⟨c2, h2'⟩ := runSeq_cons_ok _ _ _ _ _ hrun
+    have h3 := runSeq_nil_ok _ _ h2'
+    simp only [FSOp.apply] at c2 h3
+    have f2 : lookup fs1 (d ++ [infoPfx ++ n']) = none := by
+      rw [F1 _ (concat_not_prefix (Ne.symm h2)) (concat_not_prefix (Ne.symm (info_ne_self n')))]; exact hfree
+    obtain ⟨s2b, s2a, F2⟩ := rename_tol_spec fs1 _ _ (concat_ne hi) (concat_not_prefix (Ne.symm hi)) f2
+      ((parentErr_concat fs1 d _).mpr hd1) ((parentErr_concat fs1 d _).mpr hd1) (c2.imp id (·.2))
+    subst h3
+    refine ⟨?_, ?_, ?_, s2a, ?_⟩
+    · rw [F2 _ (concat_not_prefix h1) (concat_not_prefix (info_ne_self n'))]; exact s1b
+    · rw [s2b, F1 _ (concat_not_prefix (Ne.symm (info_ne_self n))) (concat_not_prefix (Ne.symm h1))]
+    · rw [F2 _ (concat_not_prefix (info_ne_self n)) (concat_not_prefix h2)]; exact s1a
+    · intro x a b c e
+      rw [F2 x c e, F1 x a b]
+  · cases hok
 
 end Mobius.FileOps
